@@ -80,6 +80,11 @@ def tagsOf (l : List (String × Bool)) : String :=
   | [] => "-"
   | ts => ",".intercalate ts
 
+/-- the real product is a whole number of nanoseconds of magnitude below 2^53 -/
+def wholeBelow53 (v : Int) (q : Rat) : Bool :=
+  let p := (v : Rat) * q
+  decide (p.den = 1 ∧ p.num.natAbs < 9007199254740992)
+
 def handle (op : String) (args : List String) (impl : Impl) : Option Ans :=
   match op, args with
   | "unit_mul_f64", [u, q] | "tu_f64", [u, q] => do
@@ -157,7 +162,9 @@ def handle (op : String) (args : List String) (impl : Impl) : Option Ans :=
     -- finite factor: the value clause; NaN / ±inf: only "returns a canonical duration" (no panic, no hang)
     let sp := match impl with
       | .ok [r] => (match parseDur? r with
-          | some r => if q.isFinite then verdict [("canonical", scanon r), ("value", durMulOk v q.toRat (sval r))]
+          | some r => if q.isFinite then verdict [("canonical", scanon r), ("value", durMulOk v q.toRat (sval r)),
+                                                   -- "exactly the product whenever that is a whole number of nanoseconds below 2^53"
+                                                   ("whole_product_exact", !wholeBelow53 v q.toRat || decide ((sval r : Rat) = (v : Rat) * q.toRat))]
                       else verdict [("canonical", scanon r)]
           | none => "FAIL:decode")
       | .ok _ => "FAIL:decode"
@@ -170,7 +177,11 @@ def handle (op : String) (args : List String) (impl : Impl) : Option Ans :=
       | .panic => "panic"
       | .hang => "hang"
     pure { model := showOutDur (durMulAfter d lp), spec := sp,
-           cls := tagsOf [("D1", Dur.d1class d && q.isFinite)],
+           -- D42 (recorded): the decimal precision search stops on a ROUNDED integer q·10^p once the exact one needs more
+           -- than 53 bits, so a whole-number product can come out one nanosecond low
+           cls := tagsOf [("D1", Dur.d1class d && q.isFinite),
+                          ("D42", q.isFinite && wholeBelow53 v q.toRat && (match durMulAfter d lp with
+                             | .ok r => decide ((sval r : Rat) ≠ (v : Rat) * q.toRat) | _ => false))],
            branch := "dmulf:" ++ ptag ++ ":" ++ (if v == 0 then "d=0" else if v < 0 then "d<0" else "d>0") ++
              (if q.isFinite && decide (absQ ((v : Rat) * q.toRat) > (DMAX : Rat)) then ":sat" else "") }
   | "compose_f64", [sg, a, b, c, d, e, f, g] => do
